@@ -19,6 +19,9 @@ CHECKS = {
  "C06": dict(level="model_checking", design="5/C06",
    technique="per-path symbolic execution of the real parser/receiver/channel/task code with the stream bytes, both size limits (z3 integers) and a read cut symbolic; z3 decides agreement with the RFC reference incl. the 431/413 rules, single error response, close and no further consumption",
    text="Both size limits are symbolic integers in [1, 4096], so every relation between a limit and each length the code compares it with is decided by linear arithmetic rather than sampled; crossed with 1-byte windows at every position of 8 skeletons, unterminated heads, all short byte strings in each chunked-decoder phase, digit runs around the 4300-digit conversion limit, and a symbolic read cut. Asserted per path: no exception leaves received()/service(), the refusal status the reference demands (convention-tolerant at the accounting edge), exactly one well-formed error response carrying Connection: close, connection closing, and a closing connection that parses nothing, calls nothing, sends nothing and is not readable."),
+ "C16": dict(level="model_checking", design="5/C16",
+   technique="per-path symbolic execution of the real proxy_headers middleware / parse_proxy_headers / undquote on symbolic header strings (z3 bit-vector cells); totality plus relational (self-composition) checks for untrusted kinds and untrusted hops",
+   text="Each proxy header as a fully symbolic string of 0..5 (quick) / 0..7 (thorough) characters over the field-value alphabet: z3 shows on every path that the outcome is an application call or a 400 - never an exception or 500. Relational runs on the same symbolic values show that header kinds outside trusted_proxy_headers cannot change the seven metadata keys and are stripped, and that hops further left than trusted_proxy_count (symbolic content, may contain commas and quotes) change nothing the application sees; token hop lists of 1..5 elements with a symbolic window and trusted_proxy_count 1..4 show address/host come from exactly the count-th hop from the right."),
 }
 NA = {}
 checks = []
